@@ -254,7 +254,18 @@ class InlinePass(ir.passes.InPlacePass):
         # Update the value map with the new values.
 
         nodes = [cloner.clone_node(node) for node in function]
-        output_values = [value_map[output] for output in function.outputs]
+        function_inputs = set(function.inputs)
+        output_values = []
+        for output in function.outputs:
+            value = value_map[output]
+            if output in function_inputs and value is not None:
+                # The function returns one of its inputs: the call result must stay a value of
+                # its own (the caller's value must not be renamed or become a graph output).
+                identity = ir.node("Identity", inputs=[value])
+                rename(identity)
+                nodes.append(identity)
+                value = identity.outputs[0]
+            output_values.append(value)
         return nodes, output_values  # type: ignore[return-value]
 
     def _inline_calls_in(
